@@ -116,6 +116,44 @@ func c13Rules(p *core.Prog, r *core.Run) {
 		r.Check("C13.NAMES", "name-encoder-shape", okShape && guarded, p.Pos(an.Pos()), "the helper trims one trailing dot, emits one uint8-prefixed label per dot-separated part only when the trimmed name is non-empty (%v) and ends with a single zero byte: %s", guarded, anS)
 	}
 
+	// the decoder accepts every name the wire format allows: RFC 1035 3.1 limits a
+	// name to 255 octets including the final zero, so the running sum of
+	// (label length + 1) may legitimately reach 254
+	nBudget := 0
+	for _, b := range nl.Blocks {
+		iff, ok := b.Instrs[len(b.Instrs)-1].(*ssa.If)
+		if !ok {
+			continue
+		}
+		bo, ok := iff.Cond.(*ssa.BinOp)
+		if !ok {
+			continue
+		}
+		k, isC := p.X(bo.Y).ConstInt()
+		x := p.X(bo.X)
+		op := bo.Op.String()
+		if k2, c2 := x.ConstInt(); c2 && !isC {
+			// constant on the left: K < sum
+			k, isC, x = k2, true, p.X(bo.Y)
+			op = map[string]string{"<": ">", "<=": ">="}[op]
+		}
+		if !isC || !strings.Contains(x.String(), "len(") || !strings.Contains(x.String(), "ReadUint8LengthPrefixed") {
+			continue
+		}
+		max := int64(-1)
+		switch op {
+		case ">":
+			max = k
+		case ">=":
+			max = k - 1
+		default:
+			continue
+		}
+		nBudget++
+		r.Check("C13.NAMES", "decoder:name-octets-limit", max >= 254, p.InstrPos(iff), "the decoder's name budget lets the sum of (label length + 1) reach %d; names of the maximum wire length (255 octets with the final zero, e.g. 127 one-octet labels) need 254, and the encoder emits them", max)
+	}
+	r.Check("C13.NAMES", "decoder:name-octets-limit-found", nBudget == 1, p.Pos(nl.Pos()), "one comparison bounds the accumulated name length in the decoder (found %d)", nBudget)
+
 	// --- RDATA
 	c13RData(p, r, rb, drr, dht, dopt, rbS)
 
@@ -439,9 +477,90 @@ func c13RData(p *core.Prog, r *core.Run, rb, drr, dht, dopt *ssa.Function, rbS s
 	for _, s := range callSites(p, []*ssa.Function{dht}, `\(\*cryptobyte\.String\)\.ReadBytes`) {
 		sizes[sinkBinding(p, dht, s.Instr.(*ssa.Call), s.Instr.Common().Args[1])] = s.X.Args[2].Name
 	}
+	for _, s := range callSites(p, []*ssa.Function{dht}, `\(\*cryptobyte\.String\)\.CopyBytes`) {
+		bind, size, fresh := copyBytesSink(p, dht, s.Instr.(*ssa.Call))
+		if !fresh {
+			size += " into a buffer shared by all iterations (every list element aliases the last address read)"
+		}
+		sizes[bind] = size
+	}
 	r.Check("C13.RDATA", "HTTPS:decoder-hints", sizes["HTTPS.IPv4Hint[]"] == "4" && sizes["HTTPS.IPv6Hint[]"] == "16", p.Pos(dht.Pos()), "the decoder reads hints as 4- and 16-byte addresses: %v", sizes)
 	decT := normTokens(parserTokens(p, dht, firstCursorOf(p, dht)))
 	r.Check("C13.RDATA", "HTTPS:decoder-shape", strings.HasPrefix(decT, "u16:HTTPS.Priority call:name(HTTPS.Target) loop{ u16:") && strings.Contains(decT, "loop{ p8{ bytes:HTTPS.ALPN[] } }") && strings.Contains(decT, "u16:HTTPS.Port"), p.Pos(dht.Pos()), "decoder: priority, target name, then (key, uint16-prefixed value)*: %s", decT)
+}
+
+// copyBytesSink describes a CopyBytes(buf) read: where buf ends up, its
+// length, and whether buf is allocated afresh in the loop iteration that reads.
+func copyBytesSink(p *core.Prog, fn *ssa.Function, call *ssa.Call) (string, string, bool) {
+	buf := call.Call.Args[1]
+	size := "?"
+	if k, ok := constSliceLen(p, buf); ok {
+		size = fmt.Sprint(k)
+	}
+	var def ssa.Instruction
+	switch b := buf.(type) {
+	case *ssa.MakeSlice:
+		def = b
+	case *ssa.Slice:
+		if al, ok := b.X.(*ssa.Alloc); ok {
+			def = al
+		}
+	}
+	fresh := def != nil && innermostLoop(fn, def.Block()) == innermostLoop(fn, call.Block())
+	// where the buffer goes
+	bind := "?"
+	set := map[ssa.Value]bool{buf: true}
+	for changed := true; changed; {
+		changed = false
+		for v := range set {
+			if v.Referrers() == nil {
+				continue
+			}
+			for _, ref := range *v.Referrers() {
+				switch x := ref.(type) {
+				case *ssa.ChangeType:
+					if !set[x] {
+						set[x], changed = true, true
+					}
+				case *ssa.Convert:
+					if !set[x] {
+						set[x], changed = true, true
+					}
+				case *ssa.Store:
+					if x.Val != v {
+						continue
+					}
+					if fa, ok := x.Addr.(*ssa.FieldAddr); ok {
+						bind = fieldBinding(p, p.X(fa))
+					}
+					if ia, ok := x.Addr.(*ssa.IndexAddr); ok {
+						if al, ok := ia.X.(*ssa.Alloc); ok {
+							for _, r1 := range *al.Referrers() {
+								sl, ok := r1.(*ssa.Slice)
+								if !ok {
+									continue
+								}
+								for _, r2 := range *sl.Referrers() {
+									ap, ok := r2.(*ssa.Call)
+									if !ok {
+										continue
+									}
+									for _, r3 := range *ap.Referrers() {
+										if s3, ok := r3.(*ssa.Store); ok {
+											if fa3, ok := s3.Addr.(*ssa.FieldAddr); ok {
+												bind = fieldBinding(p, p.X(fa3)) + "[]"
+											}
+										}
+									}
+								}
+							}
+						}
+					}
+				}
+			}
+		}
+	}
+	return bind, size, fresh
 }
 
 func firstCursorOf(p *core.Prog, fn *ssa.Function) ssa.Value {
